@@ -36,6 +36,9 @@ Proof. apply length_zseq. Qed.
 Lemma init_pool n p t : pool (init n p t) = ids n.
 Proof. reflexivity. Qed.
 
+Lemma check2_eq s id : check2 s id = check s id.
+Proof. unfold check2. destruct (check s id); reflexivity. Qed.
+
 (* ------------------------------------------------------------------ association lists *)
 Definition managed_keys (m : list (Z * req)) : list Z := keys (filter (fun kr => managed (snd kr)) m).
 
